@@ -96,6 +96,10 @@ def run(ctx, budget, findings_tokens=True):
     base, _ = gen.small_file(rng, 3, M, 'VUW')
     for shift in range(0, R + 2, 1 if ctx.thorough else 3):
         files.append((bytes(shift) + base, 'shift%d' % shift, R, M))
+    for r in fv.corpus('C08'):      # regression corpus first
+        if 'file' in r:
+            one_file(ctx, bytes.fromhex(r['file']), 'corpus', r.get('R', 64), r.get('M', 64), sorted(set([1, r.get('num_threads', 2), 16])), lines, pending)
+            ctx.count('corpus_cases')
     for data, kinds, R, M in files:
         nblocks = max(1, (len(data) + R - 1) // R)
         nts = sorted(set([1, 2, min(16, nblocks), rng.randrange(1, 17)]))
